@@ -1,4 +1,5 @@
 import AvroModel.Lemmas.Encoder
+import AvroModel.Props.C08
 /-!
 # C16 — Write failures surface as errors and leave a clean prefix
 
@@ -248,5 +249,123 @@ example :
     (encRun cfg { failAt := 3, accept := 0 } [.encode [1]]).2.1.accepted = [7, 2] := by
   simp [encRun, encRunFrom, encStep, encEncode, encFlush, blockChunks, WState.writeAll, WState.write,
     writeVarint, zigzag, putUvarint]
+
+/-! ### Crash consistency: what a reader makes of what a failing writer left behind
+
+`accepted_prefix` is about bytes; `C08.written_file_truncation` says what the container reader does
+with the first `n` bytes of the fault-free output. Together: whatever the failing call `k` and the
+number `acc` of bytes it accepted, the file left behind reads as whole blocks of whole records. -/
+
+section
+open Avro.File Avro.Crash
+variable {α ε : Type}
+
+/-- what the failing writer accepted is the fault-free output cut at that length -/
+theorem accepted_eq_take (cfg : EncCfg) (k acc : Nat) (ops : List EncOp) :
+    (encRun cfg { failAt := k, accept := acc } ops).2.1.accepted =
+      (encRun cfg {} ops).2.1.accepted.take (encRun cfg { failAt := k, accept := acc } ops).2.1.accepted.length :=
+  prefix_eq_take (accepted_prefix cfg k acc ops)
+
+/-- **C16 (crash consistency)**: for every `Encode`/`Flush` history `ops`, every writer that fails at
+its `k`-th `Write` call after accepting `acc` bytes of it (`k = 0`: never), under the hypotheses of
+`EndToEnd.write_then_read` (the header is one the reader accepts, the decompressor undoes the
+compressor, representable sizes, `rc.decode` decodes every record encoding `r` exactly to `dec r`),
+let `a` be the bytes that writer accepted (the file on disk after the failure). Then `ReadFile` on `a`
+
+* delivers exactly the records of those blocks of the fault-free run (`writtenBlocks cfg dec ops`:
+  the reference partition `(specPart cfg.blockSize ops []).1`) whose payload lies completely within
+  `a` — `completeVals … a.length`;
+* hence a prefix of the records the history encoded, `(encodings ops).map dec`: whole records, in
+  order, never a partial or altered one;
+* returns success iff `a` ends exactly at the end of the header or of a block (`boundaries`), and
+* returns an error in every other case. -/
+theorem crash_consistent (cfg : EncCfg) (ops : List EncOp)
+    {X : Ext α} {fuel : Nat} {H : Header} {sel : CodecSel} {rc : RecCodec α}
+    (hh : ValidHeader X fuel cfg.header H sel rc) (hs : H.sync = cfg.sync)
+    (hcomp : ∀ x, decompress X sel (cfg.compress x) = .ok x)
+    (hsmall : ∀ blk ∈ (specPart cfg.blockSize ops []).1, (cfg.compress blk.flatten).length ≤ maxLen)
+    (dec : Bytes → α) (hdec : ∀ r ∈ encodings ops, ∀ rest, rc.decode (r ++ rest) = .ok (dec r, rest))
+    (hn : (encodings ops).length < fuel) (hn63 : (encodings ops).length < 2 ^ 63)
+    (cb : Nat → Option ε) (hcb : ∀ i, cb i = none) (k acc : Nat) :
+    (readFile X fuel cb (encRun cfg { failAt := k, accept := acc } ops).2.1.accepted).delivered =
+        completeVals cfg.sync cfg.header.length (writtenBlocks cfg dec ops)
+          (encRun cfg { failAt := k, accept := acc } ops).2.1.accepted.length ∧
+    (readFile X fuel cb (encRun cfg { failAt := k, accept := acc } ops).2.1.accepted).delivered <+:
+        (encodings ops).map dec ∧
+    ((readFile X fuel cb (encRun cfg { failAt := k, accept := acc } ops).2.1.accepted).res = .ok ↔
+        (encRun cfg { failAt := k, accept := acc } ops).2.1.accepted.length ∈
+          boundaries cfg.sync cfg.header.length (writtenBlocks cfg dec ops)) ∧
+    ((encRun cfg { failAt := k, accept := acc } ops).2.1.accepted.length ∉
+          boundaries cfg.sync cfg.header.length (writtenBlocks cfg dec ops) →
+        ∃ e, (readFile X fuel cb (encRun cfg { failAt := k, accept := acc } ops).2.1.accepted).res = .err e) := by
+  have hpre := accepted_prefix cfg k acc ops
+  generalize (encRun cfg { failAt := k, accept := acc } ops).2.1.accepted = a at hpre ⊢
+  have htake : a = (encRun cfg {} ops).2.1.accepted.take a.length := prefix_eq_take hpre
+  have h := C08.written_file_truncation cfg ops hh hs hcomp hsmall dec hdec hn hn63 cb hcb a.length hpre.length_le
+  rw [← htake] at h
+  exact h
+
+/-- **C16 (crash consistency, corollary form)**: reading what a failing writer accepted delivers a
+prefix of the records of the history — nothing partial, altered, reordered or invented. -/
+theorem crash_delivers_prefix (cfg : EncCfg) (ops : List EncOp)
+    {X : Ext α} {fuel : Nat} {H : Header} {sel : CodecSel} {rc : RecCodec α}
+    (hh : ValidHeader X fuel cfg.header H sel rc) (hs : H.sync = cfg.sync)
+    (hcomp : ∀ x, decompress X sel (cfg.compress x) = .ok x)
+    (hsmall : ∀ blk ∈ (specPart cfg.blockSize ops []).1, (cfg.compress blk.flatten).length ≤ maxLen)
+    (dec : Bytes → α) (hdec : ∀ r ∈ encodings ops, ∀ rest, rc.decode (r ++ rest) = .ok (dec r, rest))
+    (hn : (encodings ops).length < fuel) (hn63 : (encodings ops).length < 2 ^ 63)
+    (cb : Nat → Option ε) (hcb : ∀ i, cb i = none) (k acc : Nat) :
+    (readFile X fuel cb (encRun cfg { failAt := k, accept := acc } ops).2.1.accepted).delivered <+:
+      (encodings ops).map dec :=
+  (crash_consistent cfg ops hh hs hcomp hsmall dec hdec hn hn63 cb hcb k acc).2.1
+
+/-- When the writer did report an error to the caller and the reader nevertheless reports success,
+the file ends exactly at a block (or header) end: the reader cannot tell that file from one whose
+writer was closed there. (Contrapositive reading of `crash_consistent`'s last clause.) -/
+theorem crash_ok_only_at_boundary (cfg : EncCfg) (ops : List EncOp)
+    {X : Ext α} {fuel : Nat} {H : Header} {sel : CodecSel} {rc : RecCodec α}
+    (hh : ValidHeader X fuel cfg.header H sel rc) (hs : H.sync = cfg.sync)
+    (hcomp : ∀ x, decompress X sel (cfg.compress x) = .ok x)
+    (hsmall : ∀ blk ∈ (specPart cfg.blockSize ops []).1, (cfg.compress blk.flatten).length ≤ maxLen)
+    (dec : Bytes → α) (hdec : ∀ r ∈ encodings ops, ∀ rest, rc.decode (r ++ rest) = .ok (dec r, rest))
+    (hn : (encodings ops).length < fuel) (hn63 : (encodings ops).length < 2 ^ 63)
+    (cb : Nat → Option ε) (hcb : ∀ i, cb i = none) (k acc : Nat)
+    (hok : (readFile X fuel cb (encRun cfg { failAt := k, accept := acc } ops).2.1.accepted).res = .ok) :
+    (encRun cfg { failAt := k, accept := acc } ops).2.1.accepted.length ∈
+      boundaries cfg.sync cfg.header.length (writtenBlocks cfg dec ops) :=
+  (crash_consistent cfg ops hh hs hcomp hsmall dec hdec hn hn63 cb hcb k acc).2.2.1.mp hok
+
+/-! Non-vacuity: the history of `C08.exOpsW` (blocks `[[1]]`, `[[2], [3]]`, record `[4]` pending; the
+fault-free file is 91 bytes, boundaries 52, 71, 91). Write calls: 1 = header, 2–5 = block one
+(count, size, payload, sync), 6–9 = block two. -/
+
+/-- the hypotheses of `crash_consistent` are met, for every failing call and every accepted count -/
+example (k acc : Nat) :
+    (readFile C07.exX 9 (fun _ => (none : Option Unit))
+      (encRun C08.exCfgW { failAt := k, accept := acc } C08.exOpsW).2.1.accepted).delivered <+: [1, 2, 3, 4] := by
+  have := crash_delivers_prefix C08.exCfgW C08.exOpsW C08.exHdrW_valid rfl (fun x => rfl) (by decide) C08.exDecW
+    (by intro r hr rest; simp [C08.exOpsW, encodings] at hr; rcases hr with rfl | rfl | rfl | rfl <;> rfl)
+    (by decide) (by decide) (fun _ => (none : Option Unit)) (fun _ => rfl) k acc
+  simpa [C08.exOpsW, encodings, C08.exDecW] using this
+
+/-- the conclusion, evaluated by the two models. Write 8 (block two's payload) fails after 1 of its 2
+bytes: 74 bytes on disk, block one is read, then an error. Write 9 (block two's sync marker) fails
+after 5 bytes: the payload is complete, so block two is delivered too, then an error. Write 6 fails
+with nothing accepted: the file ends exactly after block one and reads cleanly, while the writer's
+caller got the error from API call number 4 (the `Encode` that closed block two). -/
+example :
+    (encRun C08.exCfgW { failAt := 8, accept := 1 } C08.exOpsW).2.1.accepted.length = 74 ∧
+    readFile C07.exX 9 (fun _ => (none : Option Unit)) (encRun C08.exCfgW { failAt := 8, accept := 1 } C08.exOpsW).2.1.accepted
+      = ⟨[1], .err .payload⟩ ∧
+    readFile C07.exX 9 (fun _ => (none : Option Unit)) (encRun C08.exCfgW { failAt := 9, accept := 5 } C08.exOpsW).2.1.accepted
+      = ⟨[1, 2, 3], .err .syncRead⟩ ∧
+    (encRun C08.exCfgW { failAt := 6, accept := 0 } C08.exOpsW).2.2 = some 4 ∧
+    readFile C07.exX 9 (fun _ => (none : Option Unit)) (encRun C08.exCfgW { failAt := 6, accept := 0 } C08.exOpsW).2.1.accepted
+      = ⟨[1], .ok⟩ ∧
+    readFile C07.exX 9 (fun _ => (none : Option Unit)) (encRun C08.exCfgW { failAt := 1, accept := 30 } C08.exOpsW).2.1.accepted
+      = ⟨[], .err .metaVal⟩ := by
+  decide +kernel
+
+end
 
 end Avro.C16
